@@ -1108,6 +1108,11 @@ func c19RunScenario(s *hx.Suite, r *hx.R, scratch string, idx int, sc c19Scenari
 			return err
 		}
 	}
+	if !hasErr && (idx < 3 || r.Chance(0.12)) {
+		if err := c.resolveMany(r, idx); err != nil {
+			return err
+		}
+	}
 	return nil
 }
 
